@@ -62,7 +62,13 @@ def T(m):
 
 def gen(family):
     allm = list(range(0, 1 << D))
-    if family == "two":
+    if family == "one":
+        for a in allm:
+            yield T(a)
+        for a in RED:
+            yield ["boost", T(a), 2.0]
+            yield ["not", T(a)]
+    elif family == "two":
         for op in NARY:
             for a in allm:
                 for b in allm:
@@ -304,6 +310,13 @@ def run(ctx):
             lay = pick[(rot + bl) % len(pick)]
             for sl in range(8):
                 tasks.append((seed, lay, "bm25", "two", "plain", 8, sl))
+        # bare terms (every posting list) on every layout of the thorough set:
+        # all deletion families, so that a deleted document is the best /
+        # first posting of a skipped-to block somewhere
+        for lay in layouts("thorough"):
+            tasks.append((seed, lay, "bm25", "one", "plain", 1, 0))
+            if lay["deleted"]:
+                tasks.append((seed, lay, "tfidf", "one", "plain", 1, 0))
         # every weighting model x reduced alignments x all layouts
         for li, lay in enumerate(lays):
             for wi, w in enumerate(WEIGHTINGS):
@@ -320,7 +333,7 @@ def run(ctx):
             for sl in range(4):
                 tasks.append((seed, lay, "bm25", "two", "plain", 4, sl))
             for w in WEIGHTINGS:
-                for fam in ("two_red", "boost", "special", "three"):
+                for fam in ("one", "two_red", "boost", "special", "three"):
                     tasks.append((seed, lay, w, fam, "plain", 1, 0))
                 tasks.append((seed, lay, w, "nested", "plain", 1, 0))
             for v in ("terms", "filter", "mask", "collapse", "noopt"):
